@@ -328,7 +328,6 @@ DenseSymmetricMatrixPair construct_lltsa_eigenproblem(SparseWeightMatrix W, Rand
             lhs.selfadjointView<Eigen::Upper>().rankUpdate(rank_update_vector_i, rank_update_vector_j, it.value());
         }
     }
-    lhs.selfadjointView<Eigen::Upper>().rankUpdate(sum, -1. / (end - begin));
 
     // only the upper triangles have been accumulated: mirror them, the eigensolver reads the lower ones
     lhs = DenseSymmetricMatrix(lhs.selfadjointView<Eigen::Upper>());
